@@ -400,4 +400,8 @@ def obligations(tier, seed):
          "ws::background_task lets go of the connection state only after its graceful shutdown completed (the slot is taken for the whole WebSocket session)", "every resume point; 3 visits per loop head", "ws-permit")
     b, viol, reach, bad = _status_429(srv)
     emit("kernel:too_many_requests:status", "kernel", b, viol, reach, bad, "the refusal response is built from StatusCode::TOO_MANY_REQUESTS (429)", "-", "status-429")
+    # "however the server is assembled": the configured value survives every builder step
+    from .cfgframe import journey_obligations as _journey
+    _extra = _journey(R.bodies("server"), "max_connections", "max_connections", scenario="cfg_journey", fixed={"field": "max_connections"})
+    out += _extra
     return out
